@@ -1395,6 +1395,7 @@ def normalize(repo: Repo, ci: Optional[ClassInfo], fn: ast.FunctionDef, sf: Opti
         out = simplify_constants(out)
     if any(isinstance(n, ast.While) and isinstance(n.test, ast.Name) for n in ast.walk(out)):
         out = pop_loops_as_for(out)
+    out = rename_sequential_defs(out)
     if any(isinstance(n, ast.With) for n in ast.walk(out)) and any(isinstance(n, ast.Call) and norm(n.func).split(".")[-1] == "suppress" for n in ast.walk(out)):
         out = desugar_suppress(out)
     # named integer constants of the module (`_NOTE_SIZE = 8`, `CHUNK_HEADER_SIZE = 8`) read as their values
@@ -2233,6 +2234,65 @@ def simplify_constants(fn: ast.FunctionDef) -> ast.FunctionDef:
         for fld in ("body",):
             if isinstance(getattr(n, fld, None), list) and not n.body and not isinstance(n, ast.Module):
                 n.body = [ast.Pass()]
+    ast.fix_missing_locations(new)
+    number(new)
+    return new
+
+
+def rename_sequential_defs(fn: ast.FunctionDef) -> ast.FunctionDef:
+    """A plain local that is assigned several times *in the same statement list* (`value = a; yield f(value); value = b; …`, what
+    unrolling a table leaves behind) gets a fresh name per assignment, so that every name has one definition.  Only names whose
+    every binding is a plain `name = expr` directly in one list (not in nested statements, not a loop target, not augmented)."""
+    new = copy.deepcopy(fn)
+    params = {a.arg for a in new.args.args + new.args.kwonlyargs}
+    counter = [0]
+
+    def binds_anywhere(name: str, node: ast.AST) -> int:
+        return sum(1 for n in ast.walk(node) if isinstance(n, ast.Name) and n.id == name and isinstance(n.ctx, (ast.Store, ast.Del)))
+
+    def block(stmts: List[ast.stmt]) -> None:
+        direct: Dict[str, List[int]] = {}
+        for i, st in enumerate(stmts):
+            if isinstance(st, ast.Assign) and len(st.targets) == 1 and isinstance(st.targets[0], ast.Name):
+                direct.setdefault(st.targets[0].id, []).append(i)
+        for name, idxs in direct.items():
+            if len(idxs) < 2 or name in params:
+                continue
+            if binds_anywhere(name, new) != len(idxs):
+                continue                       # also bound elsewhere (nested statement, loop target, other list)
+            loads_outside = sum(1 for n in ast.walk(new) if isinstance(n, ast.Name) and n.id == name and isinstance(n.ctx, ast.Load)) - \
+                sum(1 for st in stmts for n in ast.walk(st) if isinstance(n, ast.Name) and n.id == name and isinstance(n.ctx, ast.Load))
+            if loads_outside:
+                continue
+            # segment k: statements idxs[k] (its value still reads the previous name) .. idxs[k+1]-1
+            prev = name
+            for k, start in enumerate(idxs):
+                end = idxs[k + 1] if k + 1 < len(idxs) else len(stmts)
+                if k == 0:
+                    continue
+                counter[0] += 1
+                fresh = f"{name}__s{counter[0]}"
+                st = stmts[start]
+                st.value = _Rename({name: ast.Name(id=prev, ctx=ast.Load())}).visit(st.value) if prev != name else st.value
+                st.targets = [ast.Name(id=fresh, ctx=ast.Store())]
+                ren = _Rename({name: ast.Name(id=fresh, ctx=ast.Load())})
+                for j in range(start + 1, end):
+                    stmts[j] = ren.visit(stmts[j])
+                # the next redefinition's right-hand side reads this segment's name
+                prev = fresh
+                if k + 1 < len(idxs):
+                    nxt = stmts[idxs[k + 1]]
+                    nxt.value = ren.visit(nxt.value)
+                    prev = name          # already substituted
+        for st in stmts:
+            for fld in ("body", "orelse", "finalbody"):
+                sub = getattr(st, fld, None)
+                if isinstance(sub, list) and sub and isinstance(sub[0], ast.stmt) and not isinstance(st, (ast.FunctionDef, ast.ClassDef)):
+                    block(sub)
+            if isinstance(st, ast.Try):
+                for h in st.handlers:
+                    block(h.body)
+    block(new.body)
     ast.fix_missing_locations(new)
     number(new)
     return new
